@@ -19,7 +19,7 @@ SHARD_TIMEOUT = {"quick": 900, "thorough": 3600}
 
 def gen_cases(tier, seed):
     rng = gen.rng_for(seed, "c12", tier)
-    n = 2500 if tier == "quick" else 60000
+    n = 5000 if tier == "quick" else 60000
     return [{"seed": int(rng.integers(2 ** 31)), "n_build": int(rng.integers(3, 22)), "n_act": int(rng.integers(2, 12))} for _ in range(n)]
 
 
